@@ -184,7 +184,12 @@ def run_check(prop, tier, seed, spec, work, t0):
     jobs = spec["jobs"](tier) if callable(spec["jobs"]) else spec["jobs"][tier]
     only = os.environ.get("VERIF_ONLY")
     if only:
-        jobs = [dict(j, entries=[only]) for j in jobs[:1]]
+        import fnmatch
+        sel = [dict(j, entries=[only]) for j in jobs
+               if any(fnmatch.fnmatch(e, only) for e in entries_in(harness_files(j["pkg"])))]
+        # the other jobs stay (their packages carry models the engine resolves at load time) with an
+        # entry pattern that matches nothing
+        jobs = (sel + [dict(j, entries=["ZZ_NONE_*"]) for j in jobs if j["pkg"] not in {x["pkg"] for x in sel}]) if sel else [dict(j, entries=[only]) for j in jobs[:1]]
     pkgs = {j["pkg"] for j in jobs} | set(spec.get("extra_pkgs", []))
     dep_rel = dict(spec.get("dep_overlays", {}))
     # harness dependencies between packages: the pfcp harness (C07 sweep, C13) drives the gtp5g
@@ -198,6 +203,17 @@ def run_check(prop, tier, seed, spec, work, t0):
     sym_ov, nat_ov = build_overlays(work, pkgs, dep_ov)
     for v, r in spec.get("sym_overlays", {}).items():
         sym_ov[v] = os.path.join(VERIF, r)
+    # models regenerated from /repo's current source on every run (C20: validator model from struct tags)
+    pregen_note = None
+    if spec.get("pregen"):
+        import importlib
+        try:
+            ov, pregen_note = importlib.import_module(spec["pregen"]).generate(work, REPO)
+            sym_ov.update(ov)
+        except Exception as e:  # generator cannot express the current source: never a pass
+            print(f"INCONCLUSIVE: {spec['pregen']}: {e}")
+            print(f"{prop} {tier}: paths=0 obligations=0 queries=0 validated=0 violations=0 known=0 inconclusive=1 wall={time.time()-t0:.1f}s")
+            return 2
     skip_native = set(spec.get("no_native_entries", []))
     espec = {
         "repo": REPO, "tags": "verif", "overlay": sym_ov, "jobs": jobs,
